@@ -30,6 +30,7 @@ P("C09",
                "repaired guard = 'a TickNow at an instant whose tick event was already handled schedules NextTick(now)' "
                "(needs the scheduler to remember the time of the last handled tick); it is NOT applied to /repo because it changes "
                "modeling/ticker.go, which property C12's model mirrors line by line"],
+  quick_shards=8,
   trusted=["modelled, not verified: modeling/ticker.go (TickNow, TickLater, TickingComponent.Handle/NotifyRecv/NotifyPortFree), "
            "modeling/eventdriven.go (ScheduleWakeAt/Now, Handle, NotifyRecv/NotifyPortFree), timing/serialengine.go (Schedule, "
            "nextEvent order), noc/directconnection/comp.go, messaging/port.go"],
